@@ -744,6 +744,13 @@ class SVG:
             group.extend(self.svg_root)
             self.svg_root.append(group)
 
+        # Inline gradient templates while every gradient still has its authored
+        # attributes: below, gradients are rewritten one by one (translation folded
+        # into the coordinates), and a gradient visited after its template would
+        # otherwise inherit the template's already rewritten values
+        for gradient_el in self._select_gradients():
+            self._apply_gradient_template(gradient_el)
+
         # Reversed: we want leaves first
         to_process = reversed(tuple(c for c in self.breadth_first()))
 
